@@ -254,7 +254,9 @@ check("C08",
       "length / custom) with the stored-entry count, vertex-edge (oriented or not) and vertex-face incidence, five mass matrices x inverse / "
       "sqrt, flat gradient entries, Re(G* A G) and |G f|^2 for the library's own face bases (complex and real form), laplacian_triangles "
       "(cotan / uniform); TLC compares dense copies entrywise with the exact matrices. volume_laplacian, laplacian_tetrahedra and "
-      "laplacian_edges are judged for symmetry and zero row sums.",
+      "laplacian_edges are judged for symmetry and zero row sums. Sheared lattices give obtuse triangles (negative cotangents). Every surface shape is "
+      "also run with the cacheable persistent attributes computed before the operators, and with the mesh moved after they exist (the specification "
+      "evaluates the moved geometry): four open findings - cotangent Laplacians, gradient and area masses reuse the stale attributes.",
       "Entrywise exactness only where cotangents / areas are rational; the matrix product G* A G is formed in the harness from the "
       "library's matrices, its comparison with the exact Laplacian is TLC's. Connection Laplacians belong to C18.",
       "TLA+ exact operators (C08_Operators) with identities model-checked (C08_MC); TLC entrywise trace validation (C08_Trace)",
